@@ -638,9 +638,12 @@ impl<'a> Parser<'a> {
     ///
     /// ```
     pub const fn trim(mut self) -> Self {
-        parsing! {self, FromBoth;
-            self.str = crate::string::trim(self.str);
-        }
+        // trimming the start separately, so that `start_offset` only advances
+        // by the amount of whitespace removed from the start.
+        self = self.trim_start();
+        self = self.trim_end();
+        self.parse_direction = ParseDirection::FromBoth;
+        self
     }
 
     /// Removes whitespace from the start of the parsed string.
@@ -718,9 +721,12 @@ impl<'a> Parser<'a> {
     where
         P: Pattern<'p>,
     {
-        parsing! {self, FromBoth;
-            self.str = crate::string::trim_matches(self.str, needle);
-        }
+        // trimming the start separately, so that `start_offset` only advances
+        // by the length of what was removed from the start.
+        self = self.trim_start_matches(needle);
+        self = self.trim_end_matches(needle);
+        self.parse_direction = ParseDirection::FromBoth;
+        self
     }
 
     /// Repeatedly removes all instances of `needle` from the start of the parsed string.
